@@ -194,3 +194,151 @@ func TestVerifBounded(t *testing.T) {
 	}
 	fmt.Printf("BOUNDED-SUMMARY evaluations=%d violations=%d strings_per_ecosystem=%d ecosystems=%d\n", evals, violations, limit, len(ecos))
 }
+
+// verifChains: strictly ascending chains taken from the ecosystems' published ordering rules (Debian policy 5.6.12,
+// rpm's rpmvercmp incl. ~ and ^, PEP 440, RubyGems Gem::Version, semver 2.0.0 section 11, NuGet's SemVer 2 rules,
+// apk-tools' version grammar, R's package_version, Composer's version_compare); numbers of 20 and more digits occur in
+// every numeric position.  Every pair (i < j) of a chain must compare as smaller, in both argument orders.
+var verifChains = map[string][][]string{
+	"Debian": {
+		{"1.0~~", "1.0~~a", "1.0~", "1.0~rc1", "1.0", "1.0-1", "1.0-1ubuntu1", "1.0-1+b1", "1.0-2", "1.0a", "1.0+b1", "1.0.1", "1.1", "1.2", "1.10", "1:0.1", "2:0"},
+		{"0.9", "1.0", "1.00000000000000000000001", "1.99999999999999999999", "1.100000000000000000000"},
+		{"1.0-1~bpo1", "1.0-1", "1.0-1.1", "1.0-10"},
+	},
+	"Ubuntu": {
+		{"1.0~rc1", "1.0", "1.0-1", "1.0-1ubuntu1", "1.0-1ubuntu1.1", "1.0-1ubuntu2", "1.0-2"},
+	},
+	"Red Hat": {
+		{"1.0~rc1", "1.0~rc2", "1.0", "1.0^git1", "1.0^git2", "1.0.1", "1.1", "1.10", "1:0.1"},
+		{"1.0-1", "1.0-2", "1.0-10", "1.0-10.el8", "1.1-1"},
+		{"1.99999999999999999999", "1.100000000000000000000"},
+	},
+	"PyPI": {
+		{"1.0.dev1", "1.0a1.dev1", "1.0a1", "1.0a2", "1.0b1", "1.0rc1", "1.0", "1.0+local", "1.0.post1.dev1", "1.0.post1", "1.0.1", "1.1", "1.10", "1!0.1"},
+		{"1.99999999999999999999", "1.100000000000000000000"},
+		{"1.0a99999999999999999999", "1.0a100000000000000000000"},
+	},
+	"RubyGems": {
+		{"1.0.a", "1.0.b1", "1.0.rc1", "1.0", "1.0.1", "1.1", "1.10"},
+		{"1.99999999999999999999", "1.100000000000000000000"},
+	},
+	"npm": {
+		{"1.0.0-0", "1.0.0-1", "1.0.0-10", "1.0.0-99999999999999999999", "1.0.0-100000000000000000000", "1.0.0-a", "1.0.0-alpha", "1.0.0-alpha.1", "1.0.0-alpha.beta", "1.0.0-beta", "1.0.0-beta.2", "1.0.0-beta.11", "1.0.0-rc.1", "1.0.0", "1.0.1", "1.1.0", "1.10.0", "2.0.0"},
+		{"1.0.0-rc.99999999999999999999", "1.0.0-rc.100000000000000000000", "1.0.0-rc.a"},
+		{"1.99999999999999999999.0", "1.100000000000000000000.0"},
+	},
+	"crates.io": {
+		{"1.0.0-alpha", "1.0.0-alpha.1", "1.0.0-beta", "1.0.0-rc.1", "1.0.0", "1.0.1"},
+		{"1.0.0-99999999999999999999", "1.0.0-100000000000000000000", "1.0.0---"},
+	},
+	"Go": {
+		{"1.0.0-alpha", "1.0.0-alpha.1", "1.0.0-rc.1", "1.0.0", "1.0.1", "1.1.0"},
+		{"1.0.0-rc.99999999999999999999", "1.0.0-rc.100000000000000000000"},
+	},
+	"NuGet": {
+		{"1.0.0-alpha", "1.0.0-alpha.1", "1.0.0-beta", "1.0.0-rc", "1.0.0", "1.0.1", "1.1.0"},
+		{"1.0.0-rc.99999999999999999999", "1.0.0-rc.100000000000000000000"},
+	},
+	"Alpine": {
+		{"1.0_alpha", "1.0_alpha1", "1.0_beta", "1.0_pre", "1.0_rc", "1.0_rc1", "1.0", "1.0-r1", "1.0-r10", "1.0_p1", "1.0a", "1.0.1", "1.1", "1.10"},
+		{"1.0_git1-r3", "1.0_git1~abc-r5", "1.0_git2-r0"},
+	},
+	"CRAN": {
+		{"1.0", "1.0-1", "1.0.2", "1.1", "1.10", "2.0"},
+		{"1.99999999999999999999", "1.100000000000000000000"},
+	},
+	"Packagist": {
+		{"1.0-dev", "1.0-alpha", "1.0-alpha1", "1.0-beta", "1.0-RC1", "1.0", "1.0.1", "1.1", "1.10"},
+		{"1.0-RC1", "1.0", "1.0-p1"},
+	},
+}
+
+// verifEqual: groups of spellings the published rules declare equal (a missing epoch is epoch 0, a missing Debian
+// revision is revision 0, trailing zero components, build metadata, a leading v).
+var verifEqual = map[string][][]string{
+	"Red Hat":  {{"1.0-1", "0:1.0-1"}, {"2.0", "0:2.0"}},
+	"Debian":   {{"1.0", "0:1.0", "1.0-0"}, {"1.0-1", "0:1.0-1"}},
+	"Ubuntu":   {{"1.0-1ubuntu1", "0:1.0-1ubuntu1"}},
+	"PyPI":     {{"1.0", "1.0.0", "0!1.0", "1.0.0.0"}, {"1.0a1", "1.0alpha1", "1.0.a1"}, {"1.0rc1", "1.0c1"}, {"1.0.post1", "1.0-1"}},
+	"RubyGems": {{"1.0", "1.0.0"}},
+	"NuGet":    {{"1.0.0", "1.0.0+build", "1.0.0.0"}, {"1.0.0-alpha", "1.0.0-ALPHA"}},
+	"npm":      {{"1.0.0", "1.0.0+build", "v1.0.0"}},
+	"CRAN":     {{"1.0-1", "1.0.1"}},
+	"Alpine":   {{"1.0", "1.0-r0"}},
+}
+
+// verifMixed: ascending chains that mix spellings with and without an explicit epoch 0.
+var verifMixed = map[string][][]string{
+	"Red Hat": {{"0:1.0-1", "2.0-1", "0:2.0-2", "1:0.1-1"}},
+	"Debian":  {{"0:1.0-1", "2.0-1", "0:2.0-2", "1:0.1-1"}},
+	"PyPI":    {{"0!1.0", "2.0", "0!2.1", "1!0.1"}},
+}
+
+func TestVerifBoundedEqual(t *testing.T) {
+	evals, violations := 0, 0
+	for eco, groups := range verifEqual {
+		for _, g := range groups {
+			for i := range g {
+				for j := range g {
+					r, ok, p := verifCmp(eco, g[i], g[j])
+					evals++
+					if p != nil || !ok || r != 0 {
+						violations++
+						fmt.Printf("BOUNDED-VIOLATION law=published-equal ecosystem=%q a=%q b=%q cmp(a,b)=%d accepted=%v panic=%v\n", eco, g[i], g[j], sgnv(r), ok, p)
+					}
+				}
+			}
+		}
+	}
+	for eco, chains := range verifMixed {
+		for _, ch := range chains {
+			for i := range ch {
+				for j := range ch {
+					if i == j {
+						continue
+					}
+					r, ok, _ := verifCmp(eco, ch[i], ch[j])
+					evals++
+					want := -1
+					if i > j {
+						want = 1
+					}
+					if !ok || sgnv(r) != want {
+						violations++
+						fmt.Printf("BOUNDED-VIOLATION law=published-order ecosystem=%q a=%q b=%q cmp(a,b)=%d accepted=%v want=%d\n", eco, ch[i], ch[j], sgnv(r), ok, want)
+					}
+				}
+			}
+		}
+	}
+	fmt.Printf("BOUNDED-EQUAL evaluations=%d violations=%d\n", evals, violations)
+}
+
+func TestVerifBoundedChains(t *testing.T) {
+	evals, violations := 0, 0
+	for eco, chains := range verifChains {
+		for _, ch := range chains {
+			for i := range ch {
+				for j := range ch {
+					if i == j {
+						continue
+					}
+					r, ok, p := verifCmp(eco, ch[i], ch[j])
+					evals++
+					want := -1
+					if i > j {
+						want = 1
+					}
+					if p != nil {
+						violations++
+						fmt.Printf("BOUNDED-VIOLATION law=no-panic ecosystem=%q a=%q b=%q panic=%v\n", eco, ch[i], ch[j], p)
+					} else if !ok || sgnv(r) != want {
+						violations++
+						fmt.Printf("BOUNDED-VIOLATION law=published-order ecosystem=%q a=%q b=%q cmp(a,b)=%d accepted=%v want=%d\n", eco, ch[i], ch[j], sgnv(r), ok, want)
+					}
+				}
+			}
+		}
+	}
+	fmt.Printf("BOUNDED-CHAINS evaluations=%d violations=%d\n", evals, violations)
+}
